@@ -305,6 +305,7 @@ pub fn c11_umad_vector<const N: usize>() {
 fn p_c11_umad_vector() {
     c11_umad_vector::<1>()
 }
+// not registered: parent length 2 runs 45 minutes and ends without a usable result (std's FlatMap / Flatten, DESIGN §12.4)
 #[cfg(kani)]
 #[kani::proof]
 #[kani::unwind(6)]
